@@ -38,7 +38,7 @@ def kernel_as_outcome(op, kres, bodies):
     return o
 
 
-def run(prop, tier_, cfg, sample=None, jobs=12):
+def run(prop, tier_, cfg, sample=None, jobs=12, bind_budget=False):
     t0 = time.time()
     v = Verdict(prop)
     build_s = build_harness()
@@ -108,7 +108,7 @@ def run(prop, tier_, cfg, sample=None, jobs=12):
             pv2.append(dict(id="rerun", tree=nodes, feat=FEATS[0][1], trace=False, calls=[lib, ker]))
             idx2.append((c["tree"], "kernel", [c]))
         collect(idx2, run_pv(pv2, jobs=1, tag=prop + "r"), per_case)
-    evaluate(per_case, trees, v, stats, samples)
+    evaluate(per_case, trees, v, stats, samples, bind_budget)
     # action-level conformance: a sample of the same cases, traced on the emulated backend, must be
     # behaviours of Lookup.tla (every real relevant syscall = the model's next action)
     from lib.project import lookup_conformance
@@ -144,7 +144,7 @@ def collect(index, results, per_case):
                 pos += 1
 
 
-def evaluate(per_case, trees, v, stats, samples):
+def evaluate(per_case, trees, v, stats, samples, bind_budget=False):
     nontrivial = 0
     for key, d in per_case.items():
         c = d["case"]
@@ -170,9 +170,19 @@ def evaluate(per_case, trees, v, stats, samples):
                 continue
             stats["lookups_" + bname] += 1
             if c["budget"] and bname == "emulated":
-                # between the kernel's and the emulation's link budget: outside the property's quantifier;
-                # still: a success must be what an unbounded kernel walk would return -- skip
-                stats["budget_skipped"] += 1
+                # between the kernel's and the emulation's link budget the backends legitimately differ (outside
+                # the equivalence quantifier); the emulated outcome is bound to the step machine's own prediction
+                stats["budget_cases"] += 1
+                # the property bounds the walk but does not fix the bound: an emulated lookup beyond the kernel's 40
+                # links either ends with ELOOP or returns what a walk without a budget returns -- nothing else
+                free = model_outcome(c["free"]) if "free" in c else None
+                if got != ("err", "ELOOP") and free is not None and got != free:
+                    sig = dict(check="static-lookup-budget", backend=bname, op=c["op"]["op"], path=path, tree=c["tree"], got=list(got), want=list(free))
+                    v.violation(sig, "emulated backend: %s(%r) on tree %s (more than 40 link traversals) gave %s; it must be ELOOP or the unbudgeted in-root answer %s" % (
+                        c["op"], path, c["tree"], got, free), dict(id="replay", tree=[node_to_pv(n) for n in trees[c["tree"]]["nodes"]], feat={"openat2": False}, trace=False, calls=[op_to_calls(c["op"], path)[0]]))
+                elif bind_budget and got != model_outcome(c["model"]):
+                    # evidence only: the implementation's constant differs from the one in MC_C01_budget.cfg
+                    stats["budget_constant_drift"] += 1
                 continue
             if got == truth:
                 stats["agree_" + bname] += 1
@@ -205,7 +215,7 @@ def finish(prop, v, tlc, cfg, sample, stats, samples, model_violation, build_s, 
                exhaustive=bool(tlc["complete"] and not sample),
                tlc_complete=tlc["complete"], tlc_depth=tlc.get("depth"), tlc_cfg=cfg, tlc_wall_s=round(tlc["wall"], 1),
                model_invariant_violated=model_violation,
-               oracle_vs_kernel_mismatch=stats["oracle_vs_kernel_mismatch"], budget_skipped=stats["budget_skipped"],
+               oracle_vs_kernel_mismatch=stats["oracle_vs_kernel_mismatch"], budget_cases=stats["budget_cases"], budget_constant_drift=stats["budget_constant_drift"],
                inconclusive_eagain=stats["inconclusive_eagain"], eagain_reruns=stats["eagain_reruns"],
                lookup_model_conformance=dict(validated=stats["conf_validated"], accepted=stats["conf_accepted"], drift=stats["conf_drift"], drift_samples=stats.get("conf_samples", [])),
                agree_kernel=stats["agree_kernel"], agree_emulated=stats["agree_emulated"], build_s=round(build_s, 1),
